@@ -402,8 +402,10 @@ class PauliStringLinear(PauliString):
 
         # Distributive multiplication: Loop through all pairs of terms.
         # We now loop over `self` and `other` directly.
-        for self_coeff, self_pauli in self:
-            for other_coeff, other_pauli in other:
+        # (over the term lists: the objects' own iterator shares one cursor, so `a @ a` would stop
+        # after the first term of `a`)
+        for self_coeff, self_pauli in self.combinations:
+            for other_coeff, other_pauli in other.combinations:
 
                 # Step 1: Calculate the phase of the Pauli product (P1 * P2)
                 phase = self_pauli.sign(other_pauli)
